@@ -94,7 +94,8 @@ class World:
         b = lw.Unitary(u1.copy()); b.herald(1, 2)        # same U_full as a, herald carries a photon
         c = lw.Unitary(u2.copy()); c.herald(0, 0); c.loss(0, env.L[1])         # herald on another mode
         p = lw.Circuit(3); p.bs(0, reflectivity=self.par); p.bs(1); p.herald(0, 2, 1)  # herald in != out
-        self.circ = {"a": a, "b": b, "c": c, "p": p}
+        d = lw.Circuit(3); d.mode_swaps({0: 1, 1: 0}); d.herald(0, 2)     # a pure permutation: exact expected mappings
+        self.circ = {"a": a, "b": b, "c": c, "p": p, "d": d}
         self.inputs = {"10": lw.State([1, 0]), "01": lw.State([0, 1]), "11": lw.State([1, 1])}
 
 
@@ -249,7 +250,7 @@ def quick_config(q):
 
 # ---------------- Analyzer
 def analyzer_alphabet(env, tier):
-    return [("circuit", k) for k in "abc"] + [("ps", k) for k in ("none", "r0", "r1", "rX")] \
+    return [("circuit", k) for k in "abcd"] + [("ps", k) for k in ("none", "r0", "r1", "rX")] \
         + [("analyze", "10", None), ("analyze", "01", "same"), ("analyze", "both", "swap"), ("analyze", "both", None)]
 
 
